@@ -518,7 +518,7 @@ def programs_for(pid, tier, seed):
     # (2a') exhaustive, tiny alphabet: the listing is read in the middle of the build, then a sub-circuit / operation is added
     g('obsnest', [gen.leaf('Wait', [0], [[0, 'ALL']], ['fixed', 4]), gen.leaf('DispersiveMeasure', [1], [[1, 'READOUT']], ['global', 'RO'])],
       reps=[('fixed', 1), ('fixed', 2)], acts=('NewCircuit', 'AddOp', 'AddSub', 'Apply', 'Obs'), obskinds=('full', 'ops'), linktypes=(), max_circs=2, max_objs=8,
-      max_steps=6 if quick else 7, workers=8, min_emit=5, timeout=120, cap=1500 if quick else 20000,
+      max_steps=6 if quick else 7, workers=8, min_emit=5, timeout=900, cap=1500 if quick else 20000,
       keep=lambda p: any(s['a'] == 'Obs' and any(t['a'] in ('AddSub', 'Apply') for t in p[i + 1:]) for i, s in enumerate(p)))
     # (2a'') like (2), with a block whose repetition count evaluates to 0 (the library builds such blocks itself): it still spans
     #        what it contains
@@ -568,33 +568,33 @@ M_Init == /\\ heap = DoNewCircuit(DoAddOp(DoNewCircuit(<<>>, "n1", NoLink, <<"fi
                        Step("AddOp", "n1", "n2", None, M_Anchor, NoLink, <<"fixed", 1>>, "", 0, ""),
                        Step("NewCircuit", "n3", "n3", None, NoM, NoLink, <<"fixed", 1>>, "", 0, "") >>''' % anchor
         g('kinds', menu + anchors, anchors=anchors, max_non_anchor=1, reps=[('fixed', 1)], linktypes=('FB', 'JE') if quick else ('FB', 'JS', 'JE'),
-          acts=('NewCircuit', 'AddOp', 'AddSub', 'CopyCirc', 'Apply'), max_circs=2, max_objs=9, max_steps=6, workers=8, min_emit=6, timeout=100,
+          acts=('NewCircuit', 'AddOp', 'AddSub', 'CopyCirc', 'Apply'), max_circs=2, max_objs=9, max_steps=6, workers=8, min_emit=6, timeout=900,
           init_defs=init,
           cap=2500 if quick else 30000,
           keep=lambda p: p[-1]['a'] in ('AddSub', 'CopyCirc', 'Apply') and any(s['a'] == 'AddOp' and s['m']['kind'] != 'Wait' for s in p)
           and sum(1 for s in p if s['a'] in ('AddSub', 'CopyCirc', 'Apply')) == 1)
         # (2d'') every operation class drawn (compact and non-compact, various channel orders / label maps) in every position
         g('drawkinds', menu + anchors, anchors=anchors, max_non_anchor=1, reps=[('fixed', 1)], linktypes=('FB', 'JE'), configs=(gen.DEFAULT_CFG, CFG_A),
-          acts=('AddOp', 'Obs'), obskinds=('draw', 'drawnc'), max_circs=2, max_objs=7, max_steps=6, workers=8, min_emit=5, timeout=100, init_defs=init,
+          acts=('AddOp', 'Obs'), obskinds=('draw', 'drawnc'), max_circs=2, max_objs=7, max_steps=6, workers=8, min_emit=5, timeout=900, init_defs=init,
           cap=1500 if quick else 20000,
           keep=lambda p: any(s['a'] == 'Obs' for s in p) and any(s['a'] == 'AddOp' and s['m']['kind'] != 'Wait' for s in p[3:]))
         # (2d') every operation class (supported and unsupported by the exporters), nested, repeated, unrolled: simulation
         g('export', menu, reps=[('fixed', 1), ('fixed', 2), ('fixed', 3)], acts=('NewCircuit', 'AddOp', 'AddSub', 'Apply'), linktypes=('FB',),
           max_circs=3, max_objs=14, max_steps=10, simulate='num=%d' % (14 if quick else 600), depth=11, min_emit=5, one_in=4,
-          cap=1500 if quick else 20000, timeout=150,
+          cap=1500 if quick else 20000, timeout=900,
           keep=lambda p: any(s['a'] == 'AddSub' for s in p))
     # (2e) nested repetition: depth 3, counts 1..3 at every level (fixed and registry-provided), applied twice
     g('unroll', [gen.leaf('Wait', [0], [[0, 'ALL']], ['fixed', 4]), gen.leaf('Wait', [1], [[1, 'ALL']], ['fixed', 12]),
                  gen.leaf('Rx180', [0], [[0, 'MICROWAVE']], ['global', 'MW'])],
       reps=[('fixed', 1), ('fixed', 2), ('fixed', 3), ('reg', 'r1')], acts=('NewCircuit', 'AddOp', 'AddSub', 'Apply', 'Reapply', 'SetRep'),
       linktypes=('FB',), max_circs=3, max_objs=12, max_steps=9, simulate='num=%d' % (1200 if quick else 12000), depth=10, min_emit=6,
-      one_in=4, cap=1500 if quick else 20000, timeout=120,
+      one_in=4, cap=1500 if quick else 20000, timeout=900,
       keep=lambda p: any(s['a'] == 'Apply' for s in p) and any(s['a'] == 'AddSub' for s in p))
     # (2e') exhaustive, tiny alphabet: a repeated block nested in a repeated block next to a parallel operation whose length
     #       lies between one pass and all passes of the inner block (which relation leaf ends last changes while unrolling)
     g('unroll2', [gen.leaf('Wait', [0], [[0, 'ALL']], ['fixed', 4]), gen.leaf('Wait', [1], [[1, 'ALL']], ['fixed', 6])],
       reps=[('fixed', 2), ('fixed', 3)], acts=('NewCircuit', 'AddOp', 'AddSub', 'Apply'), linktypes=(), max_circs=2, max_objs=8,
-      max_steps=6 if quick else 7, workers=8, min_emit=6, timeout=120, cap=1500 if quick else 20000,
+      max_steps=6 if quick else 7, workers=8, min_emit=6, timeout=900, cap=1500 if quick else 20000,
       keep=lambda p: p[-1]['a'] == 'Apply' and any(s['a'] == 'AddSub' for s in p))
     for dn in ('flatdir', 'copyapplied', 'qldir', 'acqdir', 'unroll3', 'twinops', 'twinblocks', 'qlreal', 'durhist', 'subrel', 'nest3', 'applyalias', 'drawdir', 'flatnest', 'implicitdeep', 'regrep'):
         if dn in want:
@@ -604,13 +604,13 @@ M_Init == /\\ heap = DoNewCircuit(DoAddOp(DoNewCircuit(<<>>, "n1", NoLink, <<"fi
     #      later, unrolled
     g('acq', meas(Q2) + [gen.leaf('Rx180', [0], [[0, 'MICROWAVE']], ['global', 'MW'])],
       reps=[('fixed', 1), ('fixed', 2)], acts=('NewCircuit', 'AddOp', 'AddSub', 'Apply', 'Obs'), linktypes=(), max_circs=3,
-      max_objs=12, max_steps=9, simulate='num=%d' % (1200 if quick else 12000), depth=10, min_emit=5, one_in=1, cap=1500 if quick else 20000, timeout=120,
+      max_objs=12, max_steps=9, simulate='num=%d' % (1200 if quick else 12000), depth=10, min_emit=5, one_in=1, cap=1500 if quick else 20000, timeout=900,
       keep=lambda p: p[-1]['a'] == 'Apply' and sum(1 for s in p if s['a'] == 'AddOp' and s['m']['kind'] == 'DispersiveMeasure') >= 2)
     # (2g) implicitly sequenced nested programs, flattened (twice)
     g('flatten', [gen.leaf('Wait', [0], [[0, 'ALL']], ['fixed', 4]), gen.leaf('Rx180', [1], [[1, 'MICROWAVE']], ['global', 'MW']),
                   gen.leaf('Rx180', [2], [[2, 'MICROWAVE']], ['global', 'MW'])] + meas((0, 3), tags=('',)) + two((0, 1)),
       reps=[('fixed', 1), ('fixed', 2)], acts=('NewCircuit', 'AddOp', 'AddSub', 'Apply', 'Flatten'), linktypes=(), max_circs=3,
-      max_objs=14, max_steps=9, simulate='num=%d' % (200 if quick else 3000), depth=10, min_emit=5, one_in=1, cap=1500 if quick else 20000, timeout=120,
+      max_objs=14, max_steps=9, simulate='num=%d' % (200 if quick else 3000), depth=10, min_emit=5, one_in=1, cap=1500 if quick else 20000, timeout=900,
       keep=lambda p: any(s['a'] == 'Flatten' for s in p) and any(s['a'] == 'AddSub' for s in p))
     # (2h) histories: observations interleaved with mutations (C03)
     g('hist', [gen.leaf('Wait', [0], [[0, 'ALL']], ['reg', 'k1']), gen.leaf('Wait', [0], [[0, 'ALL']], ['fixed', 4]),
@@ -618,26 +618,26 @@ M_Init == /\\ heap = DoNewCircuit(DoAddOp(DoNewCircuit(<<>>, "n1", NoLink, <<"fi
       reps=[('fixed', 1), ('fixed', 2)], configs=(gen.DEFAULT_CFG, CFG_A),
       acts=('NewCircuit', 'AddOp', 'AddSub', 'Apply', 'SetDur', 'Enter', 'Leave', 'Obs', 'CopyCirc'), linktypes=('FB',), max_circs=2,
       obskinds=('full', 'plot', 'stim', 'ops'),
-      max_objs=10, max_steps=9, simulate='num=%d' % (200 if quick else 3000), depth=10, min_emit=5, one_in=2, cap=1200 if quick else 15000, timeout=120,
+      max_objs=10, max_steps=9, simulate='num=%d' % (200 if quick else 3000), depth=10, min_emit=5, one_in=2, cap=1200 if quick else 15000, timeout=900,
       keep=lambda p: any(s['a'] == 'Obs' for s in p[:-1]))
     # (2i) exhaustive, tiny alphabet: drawing (compact / non-compact) inside and outside a global-duration override, operations
     #      whose own duration does / does not depend on the global settings
     g('plothist', [gen.leaf('Rx180', [0], [[0, 'MICROWAVE']], ['global', 'MW']), gen.leaf('Barrier', [0, 1], [[0, 'ALL'], [1, 'ALL']], ['fixed', 2]),
                    gen.leaf('DispersiveMeasure', [1], [[1, 'READOUT']], ['global', 'RO'])],
       configs=(gen.DEFAULT_CFG, CFG_A), acts=('NewCircuit', 'AddOp', 'Enter', 'Leave', 'Obs'), linktypes=(), max_circs=1, max_objs=5,
-      max_steps=7, obskinds=('plot', 'plotnc'), workers=8, min_emit=4, timeout=120, cap=1500 if quick else 20000,
+      max_steps=7, obskinds=('plot', 'plotnc'), workers=8, min_emit=4, timeout=900, cap=1500 if quick else 20000,
       keep=lambda p: any(s['a'] == 'Obs' for s in p) and any(s['a'] == 'Enter' for s in p))
     # (2j) drawing inside / outside overrides, with mutations after the drawing (purity), tiny alphabet, exhaustive
     g('drawhist', [gen.leaf('Rx180', [0], [[0, 'MICROWAVE']], ['global', 'MW']), gen.leaf('Barrier', [0, 1], [[0, 'ALL'], [1, 'ALL']], ['fixed', 2]),
                    gen.leaf('DispersiveMeasure', [2], [[2, 'READOUT']], ['global', 'RO'])],
       configs=(gen.DEFAULT_CFG, CFG_A), acts=('NewCircuit', 'AddOp', 'Enter', 'Leave', 'Obs'), linktypes=('FB',), max_circs=1, max_objs=4,
-      max_steps=6, obskinds=('draw', 'drawnc'), workers=8, min_emit=4, timeout=120, cap=1500 if quick else 20000,
+      max_steps=6, obskinds=('draw', 'drawnc'), workers=8, min_emit=4, timeout=900, cap=1500 if quick else 20000,
       keep=lambda p: any(s['a'] == 'Obs' for s in p))
     # (2k) drawing nested / repeated circuits (highlights of repeated blocks), before and after unrolling
     g('drawnest', [gen.leaf('Rx180', [0], [[0, 'MICROWAVE']], ['global', 'MW']), gen.leaf('CPhase', [0, 1], [[0, 'FLUX'], [0, 'MICROWAVE'], [1, 'FLUX'], [1, 'MICROWAVE']], ['global', 'FL']),
                    gen.leaf('DispersiveMeasure', [1], [[1, 'READOUT']], ['global', 'RO'])],
       reps=[('fixed', 1), ('fixed', 2)], acts=('NewCircuit', 'AddOp', 'AddSub', 'Apply', 'Obs'), linktypes=(), max_circs=2, max_objs=9,
-      max_steps=8, obskinds=('draw',), simulate='num=%d' % (300 if quick else 5000), depth=9, min_emit=4, one_in=2, timeout=120, cap=800 if quick else 10000,
+      max_steps=8, obskinds=('draw',), simulate='num=%d' % (300 if quick else 5000), depth=9, min_emit=4, one_in=2, timeout=900, cap=800 if quick else 10000,
       keep=lambda p: any(s['a'] == 'Obs' for s in p) and any(s['a'] == 'AddSub' for s in p))
     # (4) executions of code that was not written for verification, recorded through hooks on the builder API:
     #     the repository's own test files (unchanged), and the library constructors over an input grid observed as constructed /
